@@ -18,6 +18,10 @@ from facts import (walk, children, callee_is, callee, is_local, peel, src, loc, 
 P = 'p'
 
 
+class _NoEl(Exception):
+    pass
+
+
 class Seq:
     def __init__(self, length, pieces, inf=False, unknown=None, trusted=True):
         self.len = length          # linear form (ignored when inf)
@@ -49,7 +53,7 @@ def subst_elem(el, repl):
         return ('idx', subst_p(el[1], repl))
     if k == 'pair':
         return ('pair', subst_elem(el[1], repl), subst_elem(el[2], repl))
-    if k in ('map', 'some'):
+    if k in ('map', 'some', 'call', 'slice'):
         return (k,) + tuple(subst_elem(x, repl) if isinstance(x, tuple) else x for x in el[1:])
     return el
 
@@ -72,6 +76,10 @@ def show_elem(el):
         return '%s(%s)' % (el[1], show_elem(el[2]))
     if k == 'some':
         return 'Some(%s)' % show_elem(el[1])
+    if k == 'call':
+        return '%s(%s)' % (el[1], ', '.join(show_elem(x) for x in el[2:]))
+    if k == 'slice':
+        return '%s[%s..%s]' % (el[1], show_elem(el[2]), show_elem(el[3]))
     return str(el)
 
 
@@ -257,6 +265,17 @@ class Evaluator:
                     wb = W2.fork([add(sub(a, b), L(-1))])
                     if wb.ok():
                         yield wb, (b if is_min else a)
+            return
+        if k == 'If' and len(e['ch']) == 3:
+            # `if a > b { b } else { a }`: one world per branch
+            for wt, wf in self.cond_worlds(e['ch'][0], W):
+                if wt is not None:
+                    yield from self.ev_int(e['ch'][1], wt)
+                if wf is not None:
+                    yield from self.ev_int(e['ch'][2], wf)
+            return
+        if k == 'Block' and not e.get('stmts') and 'expr' in e:
+            yield from self.ev_int(e['expr'], W)
             return
         if k == 'Binary' and e['op'] in ('Add', 'Sub'):
             for W1, a in self.ev_int(e['ch'][0], W):
@@ -551,6 +570,11 @@ class Evaluator:
                 return
             for W1, s in self.ev_seq(recv, W):
                 t = s.copy()
+                applied = self._apply_map(peel(ch[1]), s, W1) if m == 'map' and len(ch) == 2 else None
+                if applied is not None:
+                    t.pieces = applied
+                    yield W1, t
+                    continue
                 if fdesc == 'Some':
                     t.pieces = [(f, ('some', el)) for f, el in s.pieces]
                 elif m in ('cloned', 'copied'):
@@ -787,14 +811,29 @@ class Evaluator:
             self.scan_accesses(e['ch'][1], W)
             t = peel(e['ch'][0])
             if t.get('res') == 'local' and t['local'] in W.ints:
+                # `x += e`, `x -= e`, `x = e` with a linear e: the exact new value
+                outs = []
+                if k == 'Assign' or e.get('op') in ('AddAssign', 'SubAssign'):
+                    for W1, v in self.ev_int(e['ch'][1], W):
+                        if v is None or W1.ints.get(t['local']) is None:
+                            outs = []
+                            break
+                        w = W1.fork()
+                        old_v = W1.ints[t['local']]
+                        w.ints[t['local']] = v if k == 'Assign' else \
+                            (add(old_v, v) if e['op'] == 'AddAssign' else sub(old_v, v))
+                        outs.append(w)
+                if outs:
+                    return outs
                 w = W.fork()
-                w.ints.pop(t['local'], None)      # value no longer tracked
-                w.ints[t['local']] = None
-                w.ints.pop(t['local'])
                 # a fresh opaque symbol stands for the new value
                 w.ints[t['local']] = L(self.sym(t.get('name', 'v')))
                 return [w]
             return [W]
+        if k == 'While':
+            r = self.exec_while(e, W)
+            if r is not None:
+                return r
         if k in ('While', 'Loop'):
             for c in children(e):
                 self.exec_body(c, W.fork()) if c.get('k') == 'Block' else self.scan_accesses(c, W)
@@ -849,6 +888,184 @@ class Evaluator:
         self.loops.append({'node': e, 'world': W, 'lo': None, 'hi': None, 'pos': None,
                            'usets': [], 'unknown': src(it)[:60]})
         return [W]
+
+    # ------------------------------------------------------------ closures as element maps
+    def _apply_map(self, c, s, W):
+        """pieces of `s.map(c)` when the closure only re-arranges its argument: binds (nested)
+        tuple patterns and yields a call of a captured callback, an index computed from an
+        enumeration index, `Some(..)`, a tuple, or a slice of a view.  None if the closure does
+        anything else (it then stays an opaque element function)."""
+        if c.get('k') != 'Closure' or len(c.get('params', [])) != 1:
+            return None
+        body = peel(c['ch'][0])
+        while body.get('k') == 'Block' and not body.get('stmts') and 'expr' in body:
+            body = peel(body['expr'])
+        head = body
+        if head.get('k') == 'MethodCall' and head.get('method') in ('unwrap', 'cast', 'into'):
+            head = peel(head['ch'][0])
+        ok_head = (head.get('k') == 'Call' and peel(head['ch'][0]).get('res') == 'local') or \
+            (head.get('k') == 'MethodCall' and head.get('method') == 'checked_sub')
+        if not ok_head:
+            return None
+        out = []
+        for f, el in s.pieces:
+            env = {}
+            if not self._bind_el(c['params'][0], el, env):
+                return None
+            try:
+                res = self._ev_el(body, env, W)
+            except _NoEl:
+                return None
+            for g, r in res:
+                out.append((f + g, r))
+        return out
+
+    def _bind_el(self, pat, el, env):
+        k = pat.get('k')
+        if k == 'Binding':
+            env[pat['local']] = el
+            return True
+        if k == 'Wild':
+            return True
+        if k == 'Tuple' and len(pat.get('ch', [])) == 2 and el[0] == 'pair':
+            return self._bind_el(pat['ch'][0], el[1], env) and self._bind_el(pat['ch'][1], el[2], env)
+        return False
+
+    def _ev_el(self, e, env, W):
+        """[(guards, element)] of an expression over bound elements"""
+        e = peel(e)
+        k = e.get('k')
+        if k == 'Block' and not e.get('stmts') and 'expr' in e:
+            return self._ev_el(e['expr'], env, W)
+        if k == 'Path' and e.get('res') == 'local':
+            if e['local'] in env:
+                return [([], env[e['local']])]
+            for W1, v in self.ev_int(e, W):
+                if v is not None and e.get('ty') in ('usize', 'i32', 'i64', 'isize'):
+                    return [([], ('idx', v))]
+            raise _NoEl()
+        if k == 'Lit':
+            for W1, v in self.ev_int(e, W):
+                if v is not None:
+                    return [([], ('idx', v))]
+            raise _NoEl()
+        if k == 'Tup' and len(e['ch']) == 2:
+            return [(g1 + g2, ('pair', a, b)) for g1, a in self._ev_el(e['ch'][0], env, W)
+                    for g2, b in self._ev_el(e['ch'][1], env, W)]
+        if k == 'Call' and strip_generics(e.get('callee') or '').endswith('Some') and len(e['ch']) == 2:
+            return [(g, ('some', a)) for g, a in self._ev_el(e['ch'][1], env, W)]
+        if k == 'Path' and e.get('def') and strip_generics(e['def']).endswith('::None'):
+            return [([], ('fill', 'None'))]
+        if k == 'Call' and peel(e['ch'][0]).get('res') == 'local':
+            name = peel(e['ch'][0]).get('name', 'f')
+            combos = [([], [])]
+            for a in e['ch'][1:]:
+                combos = [(g + g2, xs + [x]) for g, xs in combos for g2, x in self._ev_el(a, env, W)]
+            return [(g, ('call', name) + tuple(xs)) for g, xs in combos]
+        if k == 'Binary' and e.get('op') in ('Add', 'Sub'):
+            out = []
+            for g1, a in self._ev_el(e['ch'][0], env, W):
+                for g2, b in self._ev_el(e['ch'][1], env, W):
+                    if a[0] != 'idx' or b[0] != 'idx':
+                        raise _NoEl()
+                    out.append((g1 + g2, ('idx', add(a[1], b[1]) if e['op'] == 'Add' else sub(a[1], b[1]))))
+            return out
+        if k == 'MethodCall' and e.get('method') == 'checked_sub' and len(e['ch']) == 2:
+            out = []
+            for g1, a in self._ev_el(e['ch'][0], env, W):
+                for g2, b in self._ev_el(e['ch'][1], env, W):
+                    if a[0] != 'idx' or b[0] != 'idx':
+                        raise _NoEl()
+                    d = sub(a[1], b[1])
+                    out.append((g1 + g2 + [d], ('some', ('idx', d))))
+                    out.append((g1 + g2 + [add(scale(d, -1), L(-1))], ('fill', 'None')))
+            return out
+        if k == 'MethodCall' and e.get('method') in ('unwrap', 'expect') and \
+                peel(e['ch'][0]).get('k') == 'MethodCall' and \
+                callee_is(peel(e['ch'][0]), 'Vec1View::uslice', 'Vec1View::slice'):
+            r = peel(e['ch'][0])
+            return [(g1 + g2, ('slice', src(peel(r['ch'][0])), a, b))
+                    for g1, a in self._ev_el(r['ch'][1], env, W) for g2, b in self._ev_el(r['ch'][2], env, W)]
+        if k == 'MethodCall' and e.get('method') in ('cast', 'into', 'clone') and len(e['ch']) == 1:
+            return self._ev_el(e['ch'][0], env, W)
+        raise _NoEl()
+
+    def exec_while(self, e, W):
+        """`while c < hi { ..; c += 1 }` with any number of counters advanced by one in lockstep
+        at the top level of the body: one abstract iteration with the counters constrained to
+        their ranges, then the world after the loop (counters at their exit values, or untouched
+        when the loop does not run).  Returns None if the loop is not of this form."""
+        cond, body = peel(e['ch'][0]), peel(e['ch'][1])
+        if body.get('k') != 'Block':
+            return None
+        # counters: tracked integers advanced by exactly `+= 1` (or `x = x + 1`) once, top level
+        steps = {}
+        items = [st.get('e') for st in body.get('stmts', []) if st.get('k') in ('Semi', 'Expr')]
+        if 'expr' in body:
+            items.append(body['expr'])
+        for x in items:
+            x = peel(x)
+            if x.get('k') == 'AssignOp' and x.get('op') == 'AddAssign' and is_local(peel(x['ch'][0])) and \
+                    peel(x['ch'][1]).get('k') == 'Lit' and peel(x['ch'][1]).get('v') == '1':
+                steps[peel(x['ch'][0])['local']] = steps.get(peel(x['ch'][0])['local'], 0) + 1
+            elif x.get('k') == 'Assign' and is_local(peel(x['ch'][0])):
+                t, r = peel(x['ch'][0]), peel(x['ch'][1])
+                if r.get('k') == 'Binary' and r.get('op') == 'Add' and \
+                        any(is_local(peel(a)) and peel(a)['local'] == t['local'] for a in r['ch']) and \
+                        any(peel(a).get('k') == 'Lit' and peel(a).get('v') == '1' for a in r['ch']):
+                    steps[t['local']] = steps.get(t['local'], 0) + 1
+        assigned = {}
+        for x in walk(body):
+            if x.get('k') in ('Assign', 'AssignOp') and is_local(peel(x['ch'][0])):
+                lid = peel(x['ch'][0])['local']
+                assigned[lid] = assigned.get(lid, 0) + 1
+        counters = [lid for lid, n in steps.items() if n == 1 and assigned.get(lid) == 1 and lid in W.ints]
+        if not counters or any(x.get('k') in ('Break', 'Continue', 'Ret') for x in walk(body)):
+            return None
+        if any(lid not in counters for lid in assigned if lid in W.ints):
+            return None
+        # the condition with the counters at iteration K >= 0
+        K = self.sym('iter')
+        w = W.fork([L({K: 1})])
+        for lid in counters:
+            w.ints[lid] = add(W.ints[lid], L(K))
+        held = [wt for wt, wf in self.cond_worlds(cond, w) if wt is not None]
+        if len(held) != 1:
+            return None
+        w = held[0]
+        # the range of the counter the condition bounds: exit when the condition fails first
+        prim = [lid for lid in counters if any(is_local(x) and x['local'] == lid for x in walk(cond))]
+        if len(prim) != 1:
+            return None
+        prim = prim[0]
+        lo = W.ints[prim]
+        # hi: the least K at which the condition fails, as a linear form: cond is linear in K with
+        # coefficient -1 (`c + K < H`  <=>  H - c - K - 1 >= 0), so the trip count is the slack at K = 0
+        new_facts = [f for f in w.facts if f not in W.facts and f.get(K, 0) != 0]
+        if len(new_facts) != 2:
+            return None
+        slack = [f for f in new_facts if f.get(K, 0) == -1]
+        if len(slack) != 1:
+            return None
+        trips = add({k_: v for k_, v in slack[0].items() if k_ != K}, L(1))      # number of iterations
+        hi = add(lo, trips)
+        pos = add(lo, L(K))
+        rec = {'node': e, 'world': W, 'lo': lo, 'hi': hi, 'pos': pos, 'usets': []}
+        self.loops.append(rec)
+        if w.ok():
+            self.loop_stack.append(rec)
+            self.exec_body(body, w)
+            self.loop_stack.pop()
+        out = []
+        ran = W.fork([add(trips, L(-1))])              # at least one iteration: counters advanced by trips
+        if ran.ok():
+            for lid in counters:
+                ran.ints[lid] = add(W.ints[lid], trips)
+            out.append(ran)
+        skipped = W.fork([scale(trips, -1)])           # the condition fails at once
+        if skipped.ok():
+            out.append(skipped)
+        return out or [W]
 
     def scan_accesses(self, e, W, cond_depth=0):
         """Record unchecked accessor calls inside an expression (not descending into
